@@ -137,6 +137,26 @@ func (schemaStream) Generate(rng *rand.Rand, tier string, emit func(Case)) {
 			emit(Case{"op": "verdicts", "doc": docToProto(d), "label": label})
 		}
 	}
+	// members the schema says nothing about, holding numbers no float64 can hold (a 401-digit integer): draft-07 has
+	// no opinion on them, and every entry point - bytes, files, readers - gives the verdict of the rest of the document
+	for i := 0; i < 4; i++ {
+		d := g.spec()
+		huge := jbig("1" + strings.Repeat("0", 400))
+		if i%2 == 1 {
+			huge = jbig("-9" + strings.Repeat("7", 350))
+		}
+		d.set("x-vendor-weight", huge)
+		emit(Case{"op": "verdicts", "doc": docToProto(d), "label": "unconstrained-huge-number"})
+	}
+	// documents beyond 1 MiB (4000 devices' worth of text in one string): the verdict does not depend on the size
+	for i := 0; i < 2; i++ {
+		d := g.spec()
+		d.set("containerEdits", obj("env", jarr{jstr("PAD=" + strings.Repeat("x", 1300000))}))
+		if i == 1 {
+			d.set("kind", jint(7)) // ... and neither does a defect's
+		}
+		emit(Case{"op": "verdicts", "doc": docToProto(d), "label": "beyond-1MiB"})
+	}
 	emit(Case{"op": "firstuse", "processes": 12})
 	for _, d := range []any{obj(), obj("cdiVersion", jstr("1.0.0")), obj("cdiVersion", jstr("1.0.0"), "kind", jstr("a/b"), "devices", jarr{})} {
 		emit(Case{"op": "verdicts", "doc": docToProto(d), "label": "tiny"})
